@@ -538,6 +538,10 @@ def run(ctx):
 
 SELFTEST = {
     "faults": [
+        {"name": "length of the open file remembered and not dropped when the next file is opened (generic stale-value rule)", "file": "pyrex/generation.py",
+         "old": "        if stop>len(self._file):\n            stop = len(self._file)",
+         "new": "        if getattr(self, '_n_in_file', None) is None:\n            self._n_in_file = len(self._file)\n        if stop>self._n_in_file:\n            stop = self._n_in_file",
+         "rule": "R12t"},
         {"name": "np.split at cumulative lengths", "file": "pyrex/io.py",
          "old": "                for start, length in tmp_indices:\n                    start = start - tmp_start\n                    self._data[key].append(tmp[start:start+length])",
          "new": "                lengths = tmp_indices[:, 1]\n                self._data[key] = np.split(tmp, np.cumsum(lengths)[:-1])", "rule": "R12a"},
